@@ -5,35 +5,35 @@ sys.path.insert(0, '.')
 from plans import PLANS
 
 T = {
- "C01": ("differential run-time monitor: sequential PRNG call sequences under a substituted virtual clock, every result compared with an executable TTL model",
+ "C01": ("differential run-time monitor: sequential PRNG call sequences under a substituted virtual clock, every result compared with an executable TTL model; plus recorded-history linearizability checking of concurrent rounds, two-goroutine schedule enumeration (resizer x writer stall points, reader single-stepping) and same-key call-pair enumeration incl. a ticking clock",
          "Sampled exploration of call sequences and clock schedules (state-aware generator hits every method on absent / live / at-boundary / expired-uncleaned entries, bulk waves cross grow and shrink thresholds); the oracle is exact for every call made. Held on the sequences run, not a proof over all sequences.", "§5 C01"),
- "C02": ("recorded-history linearizability checking (porcupine) of concurrent Cache/CacheOf rounds against the TTL model, virtual clock frozen per phase, perturbation at every sync operation",
+ "C02": ("recorded-history linearizability checking (porcupine) of concurrent Cache/CacheOf rounds against the TTL model, virtual clock frozen per phase, perturbation at every sync operation; schedule enumerations (pairstall, oppair, reader harassment) with exact oracles; native-speed provenance storms (own-write read-back, 64 KiB keys)",
          "Sampled exploration of interleavings (2-16 goroutines, few keys, Gosched perturbation at every atomic/lock operation, GOMAXPROCS 1..16, janitor on a fake ticker, resizes in flight); each recorded history is decided exactly by porcupine per key and unpartitioned for the small family.", "§5 C02"),
- "C03": ("recorded-history linearizability checking (porcupine) of concurrent Map rounds against a builtin-map model, plus provenance monitors",
+ "C03": ("recorded-history linearizability checking (porcupine) of concurrent Map rounds against a builtin-map model, plus provenance monitors, schedule enumerations (resizer x writer stall points incl. Clear of a grown table, reader single-stepping, same-key call pairs) with exact oracles and an aftermath probe, native-speed storms",
          "Sampled exploration of interleavings over bucket-mate hot keys, slot churn, grow/shrink waves and Clear racing grows; every recorded history decided exactly.", "§5 C03"),
  "C04": ("recorded-history linearizability checking (porcupine) of concurrent MapOf rounds (int/string/struct keys, default and colliding hashers)",
          "As C03 for MapOf, including constant / same-bucket / same-7-bit-hash hashers injected through an exported constructor of the scratch build.", "§5 C04"),
- "C05": ("exact counting oracles over single-key races (one loaded=false, one value, valueFn invocation counts, swap permutation, increment chain) under perturbation and grow-in-flight",
+ "C05": ("exact counting oracles (also in a child started with GOMAXPROCS=1) over single-key races (one loaded=false, one value, valueFn invocation counts, swap permutation, increment chain) under perturbation and grow-in-flight",
          "Sampled exploration of k-racer interleavings on one key in every start state with a grow forced during the race; each round decided exactly by counting.", "§5 C05"),
- "C06": ("callback ledger monitor: sequential differential (callbacks == Count decrease, right key/value/callback) plus concurrent at-most-once / provenance / no-read-after-eviction over recorded histories",
+ "C06": ("callback ledger monitor: sequential differential (callbacks == Count decrease, right key/value/callback) plus concurrent at-most-once / provenance / no-read-after-eviction over recorded histories; enumerated scenarios (settings pair, overlapping sweeps, re-entrant refresh-on-evict callbacks with a conservation oracle)",
          "Sampled exploration of call sequences and of interleavings of removers with writers; ledger oracles are exact on what was recorded.", "§5 C06"),
  "C07": ("traversal monitors: quiescent exactness vs model, re-entrant visitor with version tracking, concurrent traversals checked against per-key version windows recorded with tickets",
          "Sampled exploration of container shapes and of interleavings of traversals with owned-key writers, resizes and Clear; oracles exact per recorded traversal.", "§5 C07"),
- "C08": ("quiescent-point structural monitor after concurrent phases: Size/Count vs Range visits vs Load over the universe vs walked table size; sequential Count bounds",
+ "C08": ("quiescent-point structural monitor after concurrent phases (incl. hot-bucket fills and concurrent Size observers): Size/Count vs Range visits vs Load over the universe vs walked table size; sequential Count bounds",
          "Sampled exploration of concurrent histories followed by a quiescent point (perturbation concentrated between slot update and counter update); the comparison at each point is exact.", "§5 C08"),
  "C09": ("differential run-time monitor under the virtual clock with exact-instant assertions; catalogue product TTL x default x constructor x method x prior state enumerated completely, then PRNG sequences",
          "The catalogue product is exhaustive over the listed boundary values (each with reads at e-1, e, e+1); beyond it sampled exploration.", "§5 C09"),
- "C10": ("differential against builtin map[K]int per key type (one process per type, 31 generic instantiations incl. interface-typed keys), default and forced-collision hashers, pointee mutation",
+ "C10": ("differential against builtin map[K]int per key type (one process per type, 32 generic instantiations incl. interface-typed keys), default and forced-collision hashers, pointee mutation",
          "Sampled exploration of call sequences over pools with equal-but-differently-represented and similar-but-different keys for every comparable kind; panics are caught as process crashes with library frames.", "§5 C10"),
  "C11": ("multi-instance lock-step differential: one call sequence on a builtin map and on 3-5 instances with other size hints / hashers; threshold-crossing waves and full-chain probes",
          "Sampled exploration of call sequences and layouts (fresh random seed per table, hints -1..100000, constant hasher forcing full chains); every result compared exactly.", "§5 C11"),
- "C12": ("twin lock-step differential: one call sequence on Cache and CacheOf[string,any] (Map and MapOf[string,any]), every observable field compared",
-         "Sampled exploration of call sequences with exotic values and all constructor pairs, sequential only.", "§5 C12"),
+ "C12": ("twin lock-step differential: one call sequence on Cache and CacheOf[string,any] (Map and MapOf[string,any]), every observable field compared (incl. what re-entrant callbacks observe, option lists with overridden options); the concurrent monitors of C02/C03/C08 on the twin flavours",
+         "Sampled exploration of call sequences with exotic values and all constructor pairs; concurrent rounds on the twin flavours are sampled as in C02/C03.", "§5 C12"),
  "C13": ("bounded-progress monitor: polling locks make every wait consume counted shim steps; per-call step budgets, runtime deadlock detector, lock ledger, post-phase sweep; re-entrant visitors/callbacks",
          "Sampled exploration: all return paths via the sequential sequences, stress rounds with resize pressure, re-entrancy cases. Liveness is decided in its bounded form only.", "§5 C13"),
  "C14": ("Go race detector (-race build of the real code, shim without shared state) over hostile mixed workloads with checksummed pointer payloads",
          "Sampled exploration of 2-64 goroutine workloads on all four containers; the detector decides every executed access pair, nothing about paths not executed.", "§5 C14"),
- "C15": ("fake-ticker registry + tick-by-tick virtual time + GC-cycle-bounded lifetime accounting (goroutines, ticker Stop, finalizer sentinels)",
+ "C15": ("time-source registry (tickers, timers) + virtual time with ticks delivered only when due + end-of-pass detection from goroutine states + janitor-pass stall enumeration + GC-cycle-bounded lifetime accounting (goroutines per cache, finalizer sentinels) with idle and busy janitors",
          "Constructor x interval table enumerated completely; TTL/tick schedules and lifetime rounds sampled. Bounded cleanup = removed by the pass of the second tick after expiry.", "§5 C15"),
  "C16": ("stall-point enumeration: writer parked at every shim step of its operation (or inside its user function) while a reader runs every lookup under a step budget",
          "Fault enumeration over all stall points of the executions produced (every atomic/lock/wait operation of 13 writer operations on 8 container kinds), layouts resampled per round; one writer stalled at a time.", "§5 C16"),
